@@ -5,6 +5,9 @@ use crate::macgen::*;
 use crate::util::*;
 
 pub fn eval(op: &str) -> String {
+    if let Some(r) = crate::adevgen::eval_dev_any(op) {
+        return r;
+    }
     let outs = run_history(op);
     let verdict = oracle(op, &outs);
     format!("{} ## oracle={}", outs.join(" ; "), verdict)
@@ -556,6 +559,8 @@ pub fn run(tier: &str, seed: u64, dir: &str) {
             sink.case(&op, &eval(&op), "answers-across-rxc", true);
         }
     }
+    // device level: both front-ends with the scripted radio (see adevgen::add_dev_classes)
+    crate::adevgen::add_dev_classes("C08", &mut rng, &mut sink, thorough, eval);
     sink.finish(
         dir,
         "histories through the real Mac (verif hook): ABP session, uplink, one authentic downlink carrying MAC commands in FOpts or on port 0, then two more uplinks and snapshots; sweeps over LinkADRReq DRxpowerxChMaskCntlxmask patterns (full grid in thorough), LinkADRReq blocks, all 256 DLSettings x frequency classes, all RXTimingSetup bytes, NewChannelReq/DlChannelReq index x frequency x DR-range classes, DevStatusReq x SNR, random sequences of up to 3 downlinks, and Class A requests followed by Class C receptions before the answering uplink, in all 9 regions. Distinct = distinct op lines; non-trivial = the downlink is authentic and carries at least one command.",
